@@ -95,6 +95,31 @@ def run(ctx):
     ctx.ob(R3, 'cmp-kernels·no-raw-float-comparison', True, f'{n_k} comparison kernel closures examined', nontrivial=False)
     ctx.floor(R3, n_k, 100, 'closures of the comparison kernels')
 
+    R4 = 'C19-R4'
+    ctx.rule(R4, 'no value prints as the empty string (which parses back as nothing and is the NULL token of CSV import): a Display impl of a '
+                 'value type whose output is assembled from optional parts (every write sits in a closure that may return early) has a '
+                 'direct fallback write in fmt itself')
+    n_d = 0
+    for ty in OWNED:
+        for i in prog.impls:
+            if i['self_adt'] != ty or i.get('trait') != 'std::fmt::Display':
+                continue
+            for m in i['items']:
+                b = prog.bodies.get(m)
+                if b is None or not m.endswith('::fmt'):
+                    continue
+                n_d += 1
+                W = re.compile(r'fmt::Formatter::<.*>::(write_fmt|write_str|pad|pad_integral)$|fmt::Formatter::(write_fmt|write_str|pad)$|'
+                               r'fmt::(Display|Debug)::fmt$|fmt::Write::write_(str|char|fmt)$')
+                direct = [c for c in b.calls if W.search(c.name or c.fn or '')]
+                in_closures = [c for g in prog.group(b.root) if g is not b and g.name.startswith(b.name) for c in g.calls if W.search(c.name or c.fn or '')]
+                ctx.functions_analysed.add(b.name)
+                ctx.ob(R4, f'{short(ty)}·Display·never-empty', bool(direct) or not in_closures,
+                       f'{ty}: direct writes in fmt: {len(direct)}; writes inside its closures: {len(in_closures)}', [b.loc],
+                       what=f'Display for {short(ty)} only writes from optional parts: a value with none of them (a zero interval) prints as '
+                            'the empty string, which COPY FROM reads back as NULL')
+    ctx.floor(R4, n_d, 6, 'Display impls of owned value types')
+
 
 def delegation(prog, impl, tr):
     """A manual relation next to a derived equality is accepted only when it is the derived relation of the wrapped value:
